@@ -431,11 +431,15 @@ func (c *client) closeByServer(packet *protocol.Packet) {
 		c.Logger.Errorf("close by server, code: %v, reason: %s", reason.Code, reason.Reason)
 	}
 
+	// do not hold the lock while closing: the conn's close callback runs
+	// reconnecting(), which takes the write lock
 	c.RLock()
-	if c.conn != nil {
-		c.conn.Close(errors.New("close by server"))
-	}
+	conn := c.conn
 	c.RUnlock()
+
+	if conn != nil {
+		conn.Close(errors.New("close by server"))
+	}
 
 	c.reconnecting()
 }
